@@ -43,6 +43,15 @@ func c08Leave(r *rng, id string) {
 		}
 		return "nil"
 	}
+	if r.chance(1, 2) {
+		// the application has user broadcasts pending: they travel in the same packets as the departure
+		lv.queueBurst([]int{1, 3, 40, 300}[r.intn(4)])
+		if r.chance(1, 2) {
+			lv.mu.Lock()
+			lv.chatty = 100000 // ... and keeps having one for every packet that leaves
+			lv.mu.Unlock()
+		}
+	}
 	switch scenario {
 	case "plain":
 		res1 = errS(lv.m.Leave(3 * time.Second))
